@@ -693,6 +693,14 @@ def kernel_cases(instance, seed):
         elif fam in ('der', 'pos'):
             c.spl_new(1, nums[1] - 1, 1001, full(nums[1] - 1))
             c.apply(2, E('Der' if fam == 'der' else 'Pos', nums[0]), 1); c.show(2)
+        elif fam == 'bigfacratio' and nums[0] > nums[1]:
+            # c!/d! is the prefactor of coefficient d in Dx<c-d> of an order-c spline
+            c.spl_new(1, nums[0], 1001, full(nums[0]))
+            c.apply(2, E('Der', nums[0] - nums[1]), 1); c.show(2)
+        elif fam in ('bigbinom', 'bigfaculty', 'bigfacratio'):
+            # binomial coefficients (and through them the factorials) are the weights of X<n>
+            c.spl_new(1, 1, 1001, full(1))
+            c.apply(2, E('Pos', max(nums)), 1); c.show(2)
         elif fam in ('faculty', 'facratio', 'binom'):
             # reached through derivatives (facultyRatio) and position powers (binomialCoefficient)
             k = max(nums) if nums else 1
@@ -1221,6 +1229,10 @@ def gen_history(rng, cid, length, show_every=True):
             d = fresh()
             c.spl_lincomb(d, [rand_scalar(rng, False) for _ in range(k)], rng.sample(same, k)); spl[d] = spl[a]
         dump()
+    # read-only comparisons of a fresh, solely owned grid against equal / different grids: references, iterators and the
+    # identity of its data must survive
+    for (ga, gb) in ((0, 1), (1, 0), (0, 2), (2, 0), (0, 0)):
+        c.grid_eq_fresh(ga, gb)
     # single-term and two-term linear combinations through both overloads (consecutive destinations differ in parity)
     for a in rng.sample(sorted(spl), min(3, len(spl))):
         for k in (1, 1, 2, 2):
@@ -1436,6 +1448,9 @@ def gen_C19(seed, tier):
     cases += gen_C01(seed + 194, 'quick')[:6 if tier == 'quick' else 30]
     cases += gen_C12(seed + 195, 'quick')[:4 if tier == 'quick' else 16]
     cases += gen_C02(seed + 196, 'quick')[:3]
+    c15 = gen_C15(seed + 197, 'quick')                 # predicates: ==, !=, isZero, checkOverlap through the archetype's own ==
+    cases += c15[:3] + [c for c in c15 if c.cid.startswith("C15z")][:2]
+    cases += gen_C03(seed + 198, 'quick')[:3]
     return cases
 
 
